@@ -115,9 +115,14 @@ class Ctx:
         try:
             return fn(*args)
         except Exception as e:  # noqa: BLE001
-            tb = traceback.format_exc(limit=8)
+            tb = traceback.format_exc(limit=-8)
+            frames = traceback.extract_tb(e.__traceback__)
+            inner = frames[-1].filename if frames else ""
+            in_repo = "/hugr-py/src/" in inner or "site-packages" in inner
+            # an exception raised by harness code itself is a harness bug (=> inconclusive),
+            # one escaping from the library under a well-formed workload is a discrepancy
             self.disc(None, "exception", type(e).__name__, "no exception", tb[-1500:],
-                      stratum=stratum, case=case)
+                      stratum=stratum, case=case, prop=None if in_repo else "HARNESS")
             return None
 
     def result(self) -> dict:
